@@ -140,7 +140,7 @@ class Gen:
                 return self.node("mcall", m="set", recv=self.expr(DICT, scope, d + 1), args=[self.expr(STR, scope, d + 1), self.int_expr(scope, d + 1)])
             if d < 2 and c < 0.65:
                 return self.node("mcall", m="remove", recv=self.expr(DICT, scope, d + 1), args=[self.expr(STR, scope, d + 1)])
-            return self.node("dlit", kvs=[{"k": self.expr(STR, scope, d + 2), "v": self.int_expr(scope, d + 1)} for _ in range(r.randint(0, 3))])
+            return self.node("dlit", kvs=[{"key": self.expr(STR, scope, d + 2), "val": self.int_expr(scope, d + 1)} for _ in range(r.randint(0, 3))])
         if ty == STRUCT:
             self.uses_struct = True
             v = self.pick_var(scope, STRUCT)
@@ -196,6 +196,8 @@ class Gen:
         if d >= 3 or c < 0.25:
             if v and r.random() < 0.6:
                 return self.node("var", n=v)
+            if self.features.get("ext2") and r.random() < 0.15:
+                return self.node("int", v=-r.randint(1, 9))       # a negative literal: one token
             return self.node("int", v=r.randint(0, 9))
         if c < 0.55:
             op = r.choice(["+", "+", "-", "*", "/", "%", "**"])
@@ -295,7 +297,7 @@ class Gen:
             if k == 1:
                 return self.node("show", e=self.node("mcall", m=r.choice(["first", "is_empty", "items", "is_some"]), recv=self.int_expr(scope, 2), args=[]))
             if k == 2:
-                return self.node("show", e=self.node("dlit", kvs=[{"k": self.expr(STR, scope, 2), "v": self.int_expr(scope, 2)}, {"k": self.int_expr(scope, 2), "v": self.int_expr(scope, 2)}]))
+                return self.node("show", e=self.node("dlit", kvs=[{"key": self.expr(STR, scope, 2), "val": self.int_expr(scope, 2)}, {"key": self.int_expr(scope, 2), "val": self.int_expr(scope, 2)}]))
             if k == 3 and r.random() < 0.5:
                 self.uses_struct = True
                 fs = r.choice([[("x", INT), ("y", INT)], [("x", STR), ("y", STR)], [("x", INT)], [("x", INT), ("y", STR), ("z", INT)], [("x", INT), ("x", INT), ("y", STR)]])
@@ -565,7 +567,7 @@ class Gen:
             self.fun_sigs[name] = (pt, INT)
         self.in_fun = None
         main = self.flat(self.stmts([], self.size, 0, False, None, None))
-        if self.features.get("session_safe") and main and main[-1]["k"] == "for":
+        if self.features.get("session_safe") and main and main[-1]["k"] in ("for", "ford"):
             # a session `run` whose last top-level expression is a `for` loop
             # stops at the loop entry (eval-up-to special case); keep such
             # programs out of session-based checks that are not about that
@@ -642,9 +644,9 @@ def render_expr(w, e, ind):
         for i, kv in enumerate(e["kvs"]):
             if i:
                 w.w(", ")
-            render_expr(w, kv["k"], ind)
+            render_expr(w, kv["key"], ind)
             w.w(" => ")
-            render_expr(w, kv["v"], ind)
+            render_expr(w, kv["val"], ind)
         w.w("]")
     elif k == "watch":
         # transparent marker (C27): the wrapped node is printed as it is
